@@ -190,7 +190,12 @@ def load_updaters(reg):
                  pure=True, effects="deterministic", props=C13, axiom_sets=("jhash",))
     reg.loop_invariant("SimpleStreamUpdater._hash_code", loop=0,
                        inv=["0 <= _i and _i <= len(text)", "h == jhash(strprefix(text, _i))", "0 <= h and h < %d" % M],
+                       # proof step (string theory only, proved before it is used): the prefix read so far is the previous
+                       # prefix extended by the character just consumed -- the shape the defining axiom of jhash matches on
+                       ghost_pre=[("i0", "_i")],
+                       hints=["strprefix(text, i0 + 1) == strprefix(text, i0) + strchar(text, i0)"],
                        modifies=[])
+    reg.specfun("strchar", lambda eng, s, i: SV(S.STR, z3.SubString(s.t, eng.coerce(i, INT)[0].t, 1)))
     reg.specfun("strprefix", lambda eng, s, i: SV(S.STR, z3.SubString(s.t, 0, eng.coerce(i, INT)[0].t)))
 
     ST = "asref(stream, 'MersenneTwister')"
